@@ -58,6 +58,14 @@ def dof_polynomials(ctx, obs, rule='POLY'):
         return None
     arms = [n for n in ast.walk(f.node) if isinstance(n, ast.If)]
     seen = 0
+    # the dof is the second element of the returned pair
+    dofn = None
+    for rn in ast.walk(f.node):
+        if isinstance(rn, ast.Return) and isinstance(rn.value, ast.Tuple) and len(rn.value.elts) == 2 \
+                and isinstance(rn.value.elts[1], ast.Name):
+            dofn = rn.value.elts[1].id
+    if dofn is None:
+        raise AnalysisError('_check_demean: does not return (matrix, dof)')
     for arm in arms:
         ndims = _ndims(arm.test, pname)
         if not ndims:
@@ -70,7 +78,7 @@ def dof_polynomials(ctx, obs, rule='POLY'):
                     ax = next((k.value for k in c.keywords if k.arg == 'axis'), c.args[1] if len(c.args) > 1 else None)
                     if isinstance(ax, ast.Constant):
                         mean_axis = ax.value
-        dofs = [s for s in body if isinstance(s, ast.Assign) and isinstance(s.targets[0], ast.Name) and s.targets[0].id == 'dof']
+        dofs = [s for s in body if isinstance(s, ast.Assign) and isinstance(s.targets[0], ast.Name) and s.targets[0].id == dofn]
         if mean_axis is None or not dofs:
             continue
         d = max(ndims)
@@ -301,23 +309,30 @@ def clamps(ctx, obs, rule='CLAMP'):
     q = N + '_covariance_eye'
     f = prog.func(q)
     ok = False
+    pair = None
     for s in f.node.body:
         if isinstance(s, ast.Assign) and isinstance(s.targets[0], ast.Name) and isinstance(s.value, ast.Call) \
-                and _leaf(s.value.func) in ('min', 'minimum') and {norm(a) for a in s.value.args} == {'d2', s.targets[0].id}:
-            ok = True
+                and _leaf(s.value.func) in ('min', 'minimum') and len(s.value.args) == 2 \
+                and all(isinstance(a, ast.Name) for a in s.value.args) and s.targets[0].id in {a.id for a in s.value.args}:
+            other = [a.id for a in s.value.args if a.id != s.targets[0].id]
+            if other:
+                ok = True
+                pair = (s.targets[0].id, other[0])
     clipped = any(isinstance(c, ast.Call) and _leaf(c.func) == 'clip' for c in ast.walk(f.node))
-    obs.check(ok or clipped, rule, q, 'the shrinkage weight b2 / d2 is bounded by 1 (b2 = min(d2, b2))',
-              'b2 is not bounded by d2: the weight on the target can exceed 1 and the weight on the sample covariance go negative',
-              '', where(prog, f, f.node))
-    # convex combination: weights b2/d2 and (d2 - b2)/d2
-    comb = [s for s in f.node.body if isinstance(s, ast.Assign) and isinstance(s.value, ast.BinOp) and isinstance(s.value.op, ast.Add)]
+    obs.check(ok or clipped, rule, q, 'the shrinkage weight is bounded by 1 (b = min(d, b) before b / d is used)',
+              'the numerator of the shrinkage weight is not bounded by its denominator: the weight on the target can exceed 1 and '
+              'the weight on the sample covariance become negative', '', where(prog, f, f.node))
+    # convex combination: weights v/d and (d - v)/d
     ok2 = False
-    for s in comb:
-        txt = norm(s.value).replace(' ', '')
-        if 'b2/d2' in txt and '(d2-b2)/d2' in txt:
-            ok2 = True
-    obs.soft(ok2, rule, q, 'the estimate is the convex combination b2/d2 * target + (d2 - b2)/d2 * sample covariance',
-              'weights do not sum to one', '', where(prog, f, f.node))
+    if pair:
+        v, d = pair
+        for s in f.node.body:
+            if isinstance(s, ast.Assign) and isinstance(s.value, ast.BinOp) and isinstance(s.value.op, ast.Add):
+                txt = norm(s.value).replace(' ', '')
+                if f'{v}/{d}' in txt and f'({d}-{v})/{d}' in txt:
+                    ok2 = True
+    obs.soft(ok2, rule, q, 'the estimate is the convex combination w * target + (1 - w) * sample covariance',
+             'weights v/d and (d - v)/d not recognised', '', where(prog, f, f.node))
 
 
 def purity(ctx, obs, rule='PURE'):
